@@ -39,6 +39,8 @@ fn inst_strategy() -> BS<Inst> {
         // around each scale's reference and 1900
         (1, (0usize..9, near_offset()).prop_map(|(s, off)| greg_offset_ns(s) + off).boxed()),
         (1, near_offset()),
+        // +-2^k ns from 1900 (+- 40 s, and up to a day later): where 64-bit nanosecond counts end
+        (1, (40u32..70, any::<bool>(), prop_oneof![2 => near_offset(), 1 => (0i128..NS_D)]).prop_map(|(k, neg, off)| (if neg { -(1i128 << k) } else { 1i128 << k }) + off).boxed()),
     ]);
     let free = (g, 0usize..9).prop_map(|(g, s)| Inst { g, s, full: true }).boxed();
     // instants that read as whole seconds (or whole milliseconds) in ANOTHER scale: the views print them without a
